@@ -227,6 +227,24 @@ int main(void)
 			printf("R ret=%zu", mpt_message_length(&msg));
 			tail("0");
 		}
+		else if (!strcmp(op, "guards") && drv_nw == 2) {
+			/* NULL-argument guards of the search functions: all refuse with EFAULT, message untouched */
+			ssize_t g[7];
+			int ef = 0, k;
+			before(); mkcur();
+			set = (const uint8_t *) ""; setlen = 0;
+			errno = 0; g[0] = mpt_memfcn(0, ncur, not_in_set, 0); ef += errno == EFAULT;
+			errno = 0; g[1] = mpt_memfcn(cur, ncur, 0, 0); ef += errno == EFAULT;
+			errno = 0; g[2] = mpt_memrfcn(0, ncur, not_in_set, 0); ef += errno == EFAULT;
+			errno = 0; g[3] = mpt_memrfcn(cur, ncur, 0, 0); ef += errno == EFAULT;
+			errno = 0; g[4] = mpt_memstr(cur, ncur, 0, 1); ef += errno == EFAULT;
+			errno = 0; g[5] = mpt_memrstr(cur, ncur, 0, 1); ef += errno == EFAULT;
+			errno = 0; g[6] = mpt_memtok(0, ncur, " ", 0, 0); ef += errno == EFAULT;
+			printf("R guards=");
+			for (k = 0; k < 7; k++) printf("%s%zd", k ? "," : "", g[k]);
+			printf(" efault=%d", ef);
+			tail("0");
+		}
 		else if ((!strcmp(op, "chr") || !strcmp(op, "rchr")) && drv_nw == 3) {
 			if (parse_byte(drv_w[2], &byte)) { puts("bad-op"); continue; }
 			before(); mkcur();
